@@ -81,6 +81,11 @@ def gen_field(r, t=None):
         f['max_nulls'] = r.pick([0, 1, 0, 3])
     if r.chance(0.3):
         f['no_duplicates'] = True
+    if r.chance(0.4) and len(f) > 1:
+        # key order is immaterial in the documented format
+        keys = list(f)
+        r.shuffle(keys)
+        f = {k: f[k] for k in keys}
     return f
 
 
